@@ -13,7 +13,7 @@ pub open spec fn all_allowed(s: Seq<char>) -> bool {
 
 pub proof fn lemma_ns_hex_safe(s: Seq<char>, x: u64)
     requires s == seq!['n', 's', '_'] + hex_digits_of(x)
-    ensures all_allowed(s), safe_component(s), !all_chars(s, '_'), !all_chars(s, '.'),
+    ensures all_allowed(s), safe_component(s), !all_chars(s, '_'), !all_chars(s, '.'), s.len() >= 4,
 {
     axiom_hex_digits(x);
     let h = hex_digits_of(x);
@@ -24,8 +24,8 @@ pub proof fn lemma_ns_hex_safe(s: Seq<char>, x: u64)
     assert(s.len() >= 4);
 }
 
-pub proof fn lemma_allowed_safe(s: Seq<char>)
-    requires all_allowed(s), s.len() >= 1,
+pub broadcast proof fn lemma_allowed_safe(s: Seq<char>)
+    requires #[trigger] all_allowed(s), s.len() >= 1,
     ensures !all_chars(s, '.') ==> safe_component(s),
 {
     assert forall|i: int| 0 <= i < s.len() implies #[trigger] s[i] != '/' && s[i] != '\0' by { assert(allowed_char(s[i])); }
@@ -59,4 +59,15 @@ pub proof fn lemma_ns_hex_safe_ex(s: Seq<char>)
 {
     let x = choose|x: u64| s == seq!['n', 's', '_'] + #[trigger] hex_digits_of(x);
     lemma_ns_hex_safe(s, x);
+}
+
+pub broadcast proof fn lemma_trim_allowed(r: Seq<char>, s: Seq<char>, c: char)
+    requires #[trigger] is_trim_of(r, s, c), all_allowed(s)
+    ensures all_allowed(r), (r.len() == s.len() ==> r == s)
+{
+    let (a, b) = choose|a: int, b: int| 0 <= a <= b <= s.len() && #[trigger] s.subrange(a, b) == r
+        && (forall|i: int| 0 <= i < a ==> s[i] == c) && (forall|i: int| b <= i < s.len() ==> s[i] == c)
+        && (a < b ==> s[a] != c && s[b - 1] != c);
+    assert forall|i: int| 0 <= i < r.len() implies allowed_char(#[trigger] r[i]) by { assert(r[i] == s[a + i]); }
+    if r.len() == s.len() { assert(a == 0 && b == s.len()); assert(s.subrange(0, s.len() as int) =~= s); }
 }
